@@ -1709,10 +1709,11 @@ class Optimizer:
         )
 
         # Add in the constraint that meat eaten is less than the maximum consumed that month.
+        # everything eaten up to and including this month (what has left the meat stock so far)
+        # cannot exceed what has been slaughtered so far
         conditions["Meat_Eaten_Maximum"] = (
-            variables["meat_eaten"][month]
-            * 1
-            / (1 - self.consts_for_optimizer["MEAT_WASTE_RETAIL"] / 100)
+            self.consts_for_optimizer["meat_summed_consumption"]
+            - variables["meat_end"][month]
             <= self.time_consts["max_consumed_culled_kcals_each_month"][month]
         )
 
